@@ -49,3 +49,15 @@ func VerifIsReleased(e TableEngine) bool {
 	}
 	return false
 }
+
+// VerifEngineLockHeld reports whether somebody holds the engine's lock at this moment.
+func VerifEngineLockHeld(e TableEngine) bool {
+	if te, ok := e.(*tableEngine); ok {
+		if te.lock.TryLock() {
+			te.lock.Unlock()
+			return false
+		}
+		return true
+	}
+	return false
+}
